@@ -222,7 +222,9 @@ def parse(src):
     if fields != ["data", "max_index"]:
         raise ParseError("struct StripedScores has fields %r (modelled: data, max_index)" % fields)
 
-    inherent = _impl_bodies(src, r"impl\s*<\s*T\s*:\s*MatrixElement\s*,\s*C\s*:\s*PositiveLength\s*>\s*StripedScores\s*<\s*T\s*,\s*C\s*>\s*\{",
+    # every inherent impl block of StripedScores<T, C>, whatever its bounds / where clause (each modelled
+    # function must be defined exactly once among them)
+    inherent = _impl_bodies(src, r"impl\s*<[^{]*?>\s*StripedScores\s*<\s*T\s*,\s*C\s*>\s*(?:where[^{]*)?\{",
                             "impl StripedScores")
     what = "impl StripedScores"
     _match(r"Ok\s*\(\s*Self\s*\{\s*data\s*,\s*max_index\s*,?\s*\}\s*\)", _fn_body(inherent, "new", what), "StripedScores::new")
